@@ -21,7 +21,9 @@ import pyrtl
 import gen_designs
 import nlx
 
-RULE = ('seeded designs of five kinds -- generic API-built (all ops, widths 1..130, registers, '
+RULE = ('always-run shape designs (every 2-input gate on identical arguments at 1 and more bits, also as '
+        'produced by CSE and post-synthesis; full-width permuting / duplicating selects of Inputs and '
+        'Registers next to identity and partial selects; exhaustive stimulus) + seeded designs of five kinds -- generic API-built (all ops, widths 1..130, registers, '
         'memories, ROMs), post-synthesis (pyrtl.synthesize of small designs; 1-bit gates), '
         'logic-only multi-bit (gate ops + concat/select/memories), raw (generic + raw LogicNets with '
         'truncating destinations), directed (register/memory/input/const driving Outputs directly, '
@@ -183,6 +185,98 @@ def directed_design(rng, j):
     return pyrtl.working_block()
 
 
+N_SHAPES = 8
+
+
+def raw_select(block, src, idx, name):
+    d = pyrtl.WireVector(len(idx))
+    block.add_net(pyrtl.LogicNet('s', tuple(idx), (src,), (d,)))
+    o = pyrtl.Output(len(idx), name)
+    o <<= d
+    return o
+
+
+def same_arg_gates(x, prefix, extra=None):
+    """every 2-input gate op applied to THE SAME wire object, each feeding an Output"""
+    w = len(x)
+    for nm, f in (('and', lambda: x & x), ('or', lambda: x | x), ('xor', lambda: x ^ x),
+                  ('nand', lambda: x.nand(x))):
+        o = pyrtl.Output(w, '%s_%s' % (prefix, nm))
+        o <<= f()
+    if extra is not None:
+        o = pyrtl.Output(w, '%s_mix' % prefix)
+        o <<= ((x ^ x) | extra) & (x.nand(x))
+
+
+def shapes_design(j):
+    """always-run directed designs (both tiers), exhaustive stimulus:
+       0..4 gates with identical arguments (1-bit, multi-bit, on inputs, on intermediates, produced by
+            CSE in optimize(), post-synthesis);  5..7 full-width permuting selects (reverse / rotate /
+            swizzle / duplicates) of Inputs and Registers next to identity, partial and 1-bit selects"""
+    pyrtl.reset_working_block()
+    block = pyrtl.working_block()
+    if j == 0:
+        t = pyrtl.Input(1, 't')
+        u = pyrtl.Input(1, 'u')
+        same_arg_gates(t, 'in', extra=u)
+    elif j == 1:
+        a = pyrtl.Input(1, 'a')
+        b = pyrtl.Input(1, 'b')
+        same_arg_gates(a & b, 'x', extra=b)
+        same_arg_gates(a ^ b, 'y')
+        same_arg_gates(~a, 'z')
+    elif j in (2, 4):
+        w = 1 if j == 2 else 2
+        a = pyrtl.Input(w, 'a')
+        b = pyrtl.Input(w, 'b')
+        for nm, f in (('xor_and', lambda: (a & b) ^ (b & a)), ('nand_or', lambda: (a | b).nand(b | a)),
+                      ('and_xor', lambda: (a ^ b) & (b ^ a)), ('or_and', lambda: (a & b) | (b & a)),
+                      ('xor_nand', lambda: a.nand(b) ^ b.nand(a))):
+            o = pyrtl.Output(w, nm)
+            o <<= f()
+        if j == 4:
+            pyrtl.synthesize()
+        pyrtl.optimize()        # common-subexpression elimination merges x op y with y op x
+        block = pyrtl.working_block()
+    elif j == 3:
+        a = pyrtl.Input(3, 'a')
+        b = pyrtl.Input(3, 'b')
+        same_arg_gates(a, 'in', extra=b)
+        same_arg_gates(a & b, 'x')
+    else:
+        a = pyrtl.Input(4 if j < 7 else 3, 'a')
+        n = len(a)
+        srcs = [('a', a)]
+        if j >= 6:
+            r = pyrtl.Register(n, 'r', reset_value=(5 if j == 6 else None))
+            r.next <<= a
+            srcs.append(('r', r))
+        if j == 7:
+            srcs.append(('t', ~a))
+            b1 = pyrtl.Input(1, 'b1')
+            srcs.append(('b1', b1))
+        for nm, src in srcs:
+            m = len(src)
+            o = pyrtl.Output(m, nm + '_rev')
+            o <<= src[::-1]
+            o = pyrtl.Output(m, nm + '_id')
+            o <<= src[:]
+            raw_select(block, src, [(k + 1) % m for k in range(m)], nm + '_rotl')
+            raw_select(block, src, [(k - 1) % m for k in range(m)], nm + '_rotr')
+            raw_select(block, src, [(2 * k + 1) % m if m % 2 else (k ^ 1) % m for k in range(m)], nm + '_swz')
+            raw_select(block, src, [0] * m, nm + '_dup0')
+            raw_select(block, src, [m - 1] + list(range(m - 1)) if m > 1 else [0], nm + '_msbfirst')
+            raw_select(block, src, [k // 2 for k in range(m)], nm + '_dupl')
+            if m > 1:
+                o = pyrtl.Output(m - 1, nm + '_part')
+                o <<= src[1:]
+                o = pyrtl.Output(1, nm + '_bit')
+                o <<= src[m - 1]
+                raw_select(block, src, [m - 1, 0], nm + '_ends')
+                raw_select(block, src, list(range(m)) + [0], nm + '_wider')
+    return block
+
+
 def build_design(ctx, i, kind):
     rng = ctx.sub_rng('design', i, kind)
     exhaustive = False
@@ -200,6 +294,9 @@ def build_design(ctx, i, kind):
     elif kind == 'directed':
         directed_design(rng, i)
         exhaustive = (i % 6 >= 4)
+    elif kind == 'shapes':
+        shapes_design(i)
+        exhaustive = True
     block = pyrtl.working_block()
     block.sanity_check()
     return block, rng, exhaustive
@@ -428,15 +525,16 @@ def pass_sequences(ctx, rng, kind):
     pairs = [[p, q] for p in range(1, 7) for q in range(1, 7) if p != q]
     if ctx.tier == 'quick':
         pairs = rng.sample(pairs, 2)
-    elif kind not in ('synth', 'logic', 'directed'):
+    elif kind not in ('synth', 'logic', 'directed', 'shapes'):
         pairs = rng.sample(pairs, 10)
     return singles + pairs
 
 
 def run(ctx):
     quick = ctx.tier == 'quick'
-    plan = ([('directed', 18), ('generic', 9), ('synth', 5), ('logic', 7), ('raw', 7)] if quick else
-            [('directed', 60), ('generic', 90), ('synth', 40), ('logic', 60), ('raw', 60)])
+    plan = [('shapes', N_SHAPES)] + (
+        [('directed', 18), ('generic', 9), ('synth', 5), ('logic', 7), ('raw', 7)] if quick else
+        [('directed', 60), ('generic', 90), ('synth', 40), ('logic', 60), ('raw', 60)])
     cases = []
     exprs = []
     extra_exprs = []       # spec_case of real results (sampled)
@@ -518,6 +616,13 @@ def run(ctx):
                               memmap={m.name: c for m, c in memmap.items()},
                               nets=[str(n) for n in dump.nets], nprobes=len(probes), dumpkey=dump.coq()))
             ctx.count('design_kinds', kind)
+            for n in orig_n:
+                if n[0] in '&|^n' and len(n[2]) == 2 and n[2][0] == n[2][1]:
+                    ctx.count('gates_with_identical_arguments', '%s/%d-bit' % (n[0], orig_w[n[2][0]][0]))
+                if n[0] == 's' and len(n[1]) == orig_w[n[2][0]][0] and tuple(n[1]) != tuple(range(len(n[1]))):
+                    ctx.count('full_width_permuting_selects',
+                              'register' if orig_w[n[2][0]][1] in (4, 5) else
+                              ('input' if orig_w[n[2][0]][1] == 1 else 'wire'))
             for n in orig_n:
                 ctx.count('ops_before', n[0])
             ctx.count('registers', len(regs))
